@@ -209,6 +209,8 @@ def run_fabric(sc, sched, max_steps=150000, settle=True):
   sim = common.new_sim(sc, sched, max_steps=max_steps, default_gran='line')
   run = FabricRun(sc, sim)
   sim.monitors.append(run.monitor)
+  if sc.get('stalls'):
+    sim.stall_plan = {int(k): v for k, v in sc['stalls'].items()}
 
   def on_pq_get(pq, item, stamp, snap):
     # C08: nothing that had to go first may still be queued
